@@ -135,10 +135,16 @@ def make_md(sc: Dict[str, Any], prefix: str):
         "xyz": cad.get("xyz", 0),
         "h5": {k: cad.get(k, 0) for k in ("data", "coordinates", "velocities", "forces")},
     }
+    mkw = {}
     if sc.get("charges") is not None:
-        mol = Molecule(Constants(), sp, coords, species, charges=torch.as_tensor(sc["charges"], dtype=torch.float64))
-    else:
-        mol = Molecule(Constants(), sp, coords, species)
+        mkw["charges"] = torch.as_tensor(sc["charges"], dtype=torch.float64)
+    if sc.get("learned"):
+        # re-parameterised run: tabulated value of the named parameters scaled, passed as learned parameters (tensors)
+        tab = Molecule(Constants(), dict(sp, learned=[]), coords.clone(), species.clone(), **mkw).parameters
+        sp["learned"] = sorted(sc["learned"])
+        mkw["learned_parameters"] = {k: tab[k].detach().clone() * float(v) for k, v in sc["learned"].items()}
+    mol = Molecule(Constants(), sp, coords, species, **mkw)
+    mol._vf_learned = mkw.get("learned_parameters", {})
     eng = sc.get("engine", "basic")
     kw = dict(seqm_parameters=sp, timestep=sc.get("dt", 0.5), Temp=sc.get("temp", 300.0), output=out)
     if eng == "basic":
@@ -249,7 +255,8 @@ def _child(sc, prefix, crash, side, resume):
                 MD.Molecular_Dynamics_Basic.run_from_checkpoint(prefix + ".restart.pt")
             else:
                 mol, md = make_md(sc, prefix)
-                md.run(mol, sc["steps"], seed=sc.get("seed", 1), remove_com=sc.get("remove_com"), reuse_P=sc.get("reuse_P", True), **sc.get("run_kwargs", {}))
+                md.run(mol, sc["steps"], seed=sc.get("seed", 1), remove_com=sc.get("remove_com"), reuse_P=sc.get("reuse_P", True),
+                       **({"learned_parameters": mol._vf_learned} if mol._vf_learned else {}), **sc.get("run_kwargs", {}))
         os._exit(0)
     except _SoftCrash:
         os._exit(17)
